@@ -160,23 +160,27 @@ Fixpoint boundary (tbl : table) (fuel : nat) (s : sh) : sres :=
 Definition reset_traps (traps : list (N * tact)) : list (N * tact) :=
   map (fun p => (fst p, match snd p with TBody _ => TDefault | a => a end)) traps.
 
+(* a list of commands, given how one command is executed *)
+Definition exec_list_with (ex : cmd -> sh -> sres) : list cmd -> sh -> sres :=
+  fix go (l : list cmd) (s : sh) : sres :=
+    match l with
+    | [] => SOk s
+    | c :: l => match ex c s with SOk s' => go l s' | r => r end
+    end.
+
 Section Exec.
   Variable tbl : table.
   Variable bfuel : nat.
 
+  (* Command::execute: the command, then run_traps_for_caught_signals *)
   Fixpoint exec (c : cmd) (s : sh) : sres :=
-    let exec_list :=
-      fix go (l : list cmd) (s : sh) : sres :=
-        match l with
-        | [] => SOk s
-        | c :: l => match exec c s with SOk s' => go l s' | r => r end
-        end in
     match c with
     | CB b => match do_b b s with SOk s' => boundary tbl bfuel s' | r => r end
-    | CBrace l => match exec_list l s with SOk s' => boundary tbl bfuel s' | r => r end
+    | CBrace l =>
+        match exec_list_with exec l s with SOk s' => boundary tbl bfuel s' | r => r end
     | CSub l =>
         let child := mkSh (reset_traps (traps s)) [] (status s) (nextpid s) (nextpid s + 1) (tr s) in
-        match exec_list l child with
+        match exec_list_with exec l child with
         | SOk c' =>
             boundary tbl bfuel (mkSh (traps s) (pend s) (status c') (pid s) (nextpid c') (tr c'))
         | SDead sg c' =>
@@ -184,9 +188,10 @@ Section Exec.
         | SFuel => SFuel
         end
     | CIf c t e =>
-        match exec_list c s with
+        match exec_list_with exec c s with
         | SOk s1 =>
-            match (if N.eqb (status s1) 0 then exec_list t s1 else exec_list e s1) with
+            match (if N.eqb (status s1) 0 then exec_list_with exec t s1
+                   else exec_list_with exec e s1) with
             | SOk s2 => boundary tbl bfuel s2
             | r => r
             end
@@ -194,11 +199,7 @@ Section Exec.
         end
     end.
 
-  Fixpoint exec_list (l : list cmd) (s : sh) : sres :=
-    match l with
-    | [] => SOk s
-    | c :: l => match exec c s with SOk s' => exec_list l s' | r => r end
-    end.
+  Definition exec_list : list cmd -> sh -> sres := exec_list_with exec.
 End Exec.
 
 Definition init_sh : sh := mkSh [] [] 0 0 1 [].
